@@ -276,7 +276,7 @@ def generate(tier, seed):
         seqs += [[a, b, c] for a in FORMS8 for b in FORMS8 for c in FORMS8]
     for fs in seqs:
         for which in ("lines", "entries", "positions"):
-            if tier == "quick" and which == "lines" and any(f in ("n3", "l3111") for f in fs):
+            if tier == "quick" and which in ("lines", "positions") and any(f in ("n3", "l3111") for f in fs):
                 continue  # 3-byte varints in the co_lines walker need > 60 s of z3 time: thorough tier only
             if tier == "quick" and len(fs) > 1 and all(f.startswith("l") for f in fs):
                 continue  # two long-form entries: > 60 s of z3 time, thorough tier only
